@@ -34,7 +34,46 @@ func rulePAPrecedence(w *World, c *Check, rule, fk string) {
 		c.Missing(rule, fk)
 		return
 	}
-	fa := NewFuncAn(w, fn)
+	// the loop over the PA-data may have been extracted into a helper: the rule is about the loop,
+	// wherever it lives below the anchor
+	anchor := NewFuncAn(w, fn)
+	for _, sub := range anchor.withNewHelpers() {
+		if paLoopIn(sub) {
+			rulePAPrecedenceIn(w, c, rule, fk, sub)
+			return
+		}
+	}
+	rulePAPrecedenceIn(w, c, rule, fk, anchor)
+}
+
+// paLoopIn: the function compares PADataType with at least two of the key-describing PA types inside a loop.
+func paLoopIn(fa *FuncAn) bool {
+	n, inLoop := 0, false
+	for _, cd := range fa.Conds {
+		if cd.Kind != "eq" {
+			continue
+		}
+		var k string
+		switch {
+		case strings.HasSuffix(cd.R, ".PADataType") && isConstTerm(cd.L):
+			k = cd.L
+		case strings.HasSuffix(cd.L, ".PADataType") && isConstTerm(cd.R):
+			k = cd.R
+		default:
+			continue
+		}
+		if _, known := paPrecedence[k]; known {
+			n++
+			if loopHeaderOf(cd.If.Block()) != nil {
+				inLoop = true
+			}
+		}
+	}
+	return n >= 2 && inLoop
+}
+
+func rulePAPrecedenceIn(w *World, c *Check, rule, fk string, fa *FuncAn) {
+	fn := fa.Fn
 	where := w.Pos(fn.Pos())
 	// case regions
 	type region struct {
@@ -325,16 +364,25 @@ func runC08(w *World, c *Check) {
 		pass := fa.MatchGuard(EqPass("nil", `crypto/rand\.Read\(.*\)#1`))
 		p := fa.PathAvoiding(pass, fa.SuccessExits(BoolErrSuccess(-1, 1)))
 		c.Decide(len(pass) > 0 && p == nil, "C08.generated", fk, "error-checked", w.Pos(fn.Pos()), "a failing random source yields an error, not a key", "success exit reachable when rand.Read failed")
+		// one key value (there may be several literals: an error return's and the success return's)
+		// carries both the etype's id and the random buffer
 		okT, okV := false, false
 		var sts []string
-		for _, st := range fa.storesTo(`local<types\.EncryptionKey>\..*`) {
+		hasT, hasV := map[string]bool{}, map[string]bool{}
+		for _, st := range fa.storesTo(`local<types\.EncryptionKey>(#\d+)?\..*`) {
 			a, v := fa.R.R(st.Addr), fa.R.R(st.Val)
 			sts = append(sts, a+" <- "+v)
+			obj := a[:strings.LastIndex(a, ".")]
 			if strings.HasSuffix(a, ".KeyType") && fa.M(`crypto/etype\.EType\.GetETypeID\(etype\)`, v) {
-				okT = true
+				hasT[obj] = true
 			}
 			if strings.HasSuffix(a, ".KeyValue") && buf != nil && stripSlice(st.Val) == buf {
-				okV = true
+				hasV[obj] = true
+			}
+		}
+		for obj := range hasV {
+			if hasT[obj] {
+				okT, okV = true, true
 			}
 		}
 		c.Decide(okT && okV, "C08.generated", fk, "stamp", w.Pos(fn.Pos()), "the key is stamped with the same etype's id and carries the random buffer", fmt.Sprintf("stores: %v", sts))
@@ -443,10 +491,16 @@ func runC08(w *World, c *Check) {
 			where := w.Pos(InstrPos(calls[0]))
 			c.Decide(fa.M(`passwd`, args[1]), "C08.salt", fk, "password", where, "the password parameter is what is stretched", "secret operand is "+args[1])
 			c.Decide(fa.M(`φ\(.*types\.\(PrincipalName\)\.GetSalt\(cname, realm\).*\)`, args[2]), "C08.salt", fk, "salt-default", where, "the salt is the KDC-supplied one or, failing that, cname.GetSalt(realm)", "salt operand is "+trunc(args[2], 200))
-			def := fa.MatchGuard(EqPass(`""`, `\$L\d+|φ\(.*\)`))
+			def := fa.MatchGuard(EqPass(`""`, `\$L\d+|φ⟲?\(.*\)`))
 			c.Decide(len(def) > 0, "C08.salt", fk, "default-only-when-empty", where, "the default salt is used only when no salt was supplied", "no emptiness test of the salt")
 			c.Decide(strings.Contains(args[3], "GetDefaultStringToKeyParams") && strings.Contains(args[3], "S2KParams"), "C08.salt", fk, "s2kparams", where, "parameters are the etype default or the KDC-supplied ones", "params operand is "+trunc(args[3], 200))
-			c.Decide(len(fa.MatchGuard(EqPass("4", `len\(.*\.S2KParams\)`))) > 0, "C08.salt", fk, "s2kparams-4-bytes", where, "only 4-byte s2kparams are decoded", "no length test")
+			lenTest := false
+			for _, sub := range fa.withNewHelpers() {
+				if len(sub.MatchGuard(EqPass("4", `len\(.*\.S2KParams\)`))) > 0 {
+					lenTest = true
+				}
+			}
+			c.Decide(lenTest, "C08.salt", fk, "s2kparams-4-bytes", where, "only 4-byte s2kparams are decoded", "no length test")
 		}
 		for _, st := range fa.storesTo(`local<types\.EncryptionKey>\.KeyType`) {
 			if v := fa.R.R(st.Val); fa.M(`etypeID`, v) {
